@@ -160,7 +160,9 @@ func gen(t *rapid.T) Case {
 		case "prereg":
 			// pre-registration through the reporter's public Register* API with the tag keys listed
 			// in a generated order
-			op.What = rapid.SampledFrom([]string{"counter", "gauge", "timer"}).Draw(t, "prekind")
+			// the x-flavours register ONE shared name "p_N" as different kinds with the same description
+			// and tag keys (a name reused for another kind through the Register* API)
+			op.What = rapid.SampledFrom([]string{"counter", "gauge", "timer", "xcounter", "xgauge", "xtimer"}).Draw(t, "prekind")
 			op.I = int64(rapid.IntRange(0, 1).Draw(t, "order"))
 		}
 		c.Ops = append(c.Ops, op)
@@ -307,6 +309,12 @@ func run(c Case) (pbt.Outcome, error) {
 					_, _ = rep.RegisterGauge(fmt.Sprintf("g_%d", op.N), keys, "pre-registered")
 				case "timer":
 					_, _ = rep.RegisterTimer(fmt.Sprintf("t_%d", op.N), keys, "pre-registered", nil)
+				case "xcounter":
+					_, _ = rep.RegisterCounter(fmt.Sprintf("p_%d", op.N), keys, "pre-registered")
+				case "xgauge":
+					_, _ = rep.RegisterGauge(fmt.Sprintf("p_%d", op.N), keys, "pre-registered")
+				case "xtimer":
+					_, _ = rep.RegisterTimer(fmt.Sprintf("p_%d", op.N), keys, "pre-registered", nil)
 				}
 			})
 			preregs++
